@@ -119,6 +119,10 @@ def _parse_case(case):
             raw = data.replace("\n", "\r\n").encode("utf-8")
         elif enc == "latin1":
             raw = (data + "\n-- caf\xe9 \xb5s").encode("latin-1", "replace")
+        elif enc == "latin1_late":
+            # the first non-UTF-8 byte lies beyond the first decoding chunk (8 KiB) of the reader
+            header = "\n".join("-- revision history line %04d ....................................................." % i for i in range(140))
+            raw = (header + "\n-- author: Jos\xe9 Mu\xf1oz\n" + data).encode("latin-1", "replace")
         elif enc == "nbsp_ff":
             raw = (data + "\n--\xa0nbsp\n\f\n").encode("utf-8")
         elif enc == "bom":
@@ -129,6 +133,17 @@ def _parse_case(case):
             fh.write(raw)
         lines, err = vu.read_vhdlfile(p)
         os.remove(p)
+        # what a reader must deliver, decoded independently of VSG
+        try:
+            mine = raw.decode("utf-8")
+        except UnicodeDecodeError:
+            mine = raw.decode("iso-8859-1")
+        mine = [x.rstrip("\r") for x in mine.split("\n")]
+        if mine and mine[-1] == "":
+            mine = mine[:-1]
+        got = [x.rstrip("\n").rstrip("\r") for x in lines]
+        if got != mine:
+            return {"read_differs": {"n_read": len(got), "n_expected": len(mine), "first": next(((i + 1, a, b) for i, (a, b) in enumerate(itertools.zip_longest(mine, got)) if a != b), None)}, "nlines": len(got)}
     else:
         lines = text.split("\n")
     try:
@@ -280,7 +295,7 @@ def _cases(tier, seed):
     for f in harness.sample(rng, corpus, nvar):
         cases.append({"k": "parse", "file": f, "variant": [rng.choice(transforms.KINDS), rng.randrange(0, 3 if tier == "quick" else 12)]})
     for f in harness.sample(rng, corpus, 120 if tier == "quick" else 1200):
-        cases.append({"k": "parse", "file": f, "enc": rng.choice(["crlf", "latin1", "nbsp_ff", "bom"])})
+        cases.append({"k": "parse", "file": f, "enc": rng.choice(["crlf", "latin1", "latin1_late", "nbsp_ff", "bom"])})
     # (c)
     ncli = 48 if tier == "quick" else 480
     pool = ["none", "jcl", "indent_only", "tabs4", "upper", "ws_rules_off", "ws_rules_off", "rand_disabled", "rand_warning", "ws_rules_warning"]
@@ -310,6 +325,9 @@ def judge(case, res, V):
         if st in ("skip", "rejected"):
             return None
         cls = "enc:" + case["enc"] if case.get("enc") else ("variant" if case.get("variant") else "plain")
+        if "read_differs" in res:
+            V.violation("reader-not-lossless:" + cls, case, res["read_differs"])
+            return "parse:%s:%s" % (case["file"], case.get("variant") or case.get("enc"))
         if "emit_diff" in res:
             V.violation("emit-differs:" + cls, case, res["emit_diff"])
         if "unclassified" in res:
